@@ -255,6 +255,10 @@ fn run(t: &[&str]) -> String {
                     d.set_now_ns(rest.parse().unwrap());
                     "-".into()
                 }
+                "L" => {
+                    d.set_max_datagram(if rest == "-" { None } else { Some(rest.parse().unwrap()) });
+                    "-".into()
+                }
                 "P" => {
                     is_poll = true;
                     let script: Vec<v::SendOutcome> = rest
